@@ -16,11 +16,14 @@ import (
 	"context"
 	"fmt"
 	"net"
+	"sort"
 	"strconv"
 	"sync"
 	"sync/atomic"
 	"testing"
 	"time"
+
+	"github.com/edgexfoundry/go-mod-core-contracts/v4/models"
 )
 
 const c16Chunk = 4096
@@ -272,11 +275,96 @@ func (c c16cancelCase) run(deadline time.Duration) string {
 	}
 }
 
+// c16auto runs the real autoDiscover over the given networks (all inside 127/8, so that one wildcard listener sees every
+// dial) and returns the sorted multiset of addresses that were dialled, or "blocked".
+func c16auto(ctx context.Context, nets [][2]uint32, deadline time.Duration) string {
+	ln, err := net.Listen("tcp4", "0.0.0.0:0")
+	if err != nil {
+		return "listen-failed"
+	}
+	defer ln.Close()
+	var mu sync.Mutex
+	var dialled []uint32
+	go func() {
+		for {
+			c, err := ln.Accept()
+			if err != nil {
+				return
+			}
+			if ta, ok := c.LocalAddr().(*net.TCPAddr); ok {
+				if ip := ta.IP.To4(); ip != nil {
+					mu.Lock()
+					dialled = append(dialled, uint32(ip[0])<<24|uint32(ip[1])<<16|uint32(ip[2])<<8|uint32(ip[3]))
+					mu.Unlock()
+				}
+			}
+			c.Close()
+		}
+	}()
+	_, port, _ := net.SplitHostPort(ln.Addr().String())
+	var subnets []string
+	for _, n := range nets {
+		subnets = append(subnets, c16cidr(n[0], int(n[1])))
+	}
+	done := make(chan struct{})
+	go func() {
+		defer close(done)
+		defer func() { _ = recover() }()
+		autoDiscover(ctx, discoverParams{subnets: subnets, asyncLimit: 4, timeout: 500 * time.Millisecond, scanPort: port})
+	}()
+	select {
+	case <-done:
+	case <-time.After(deadline):
+		return "blocked"
+	}
+	time.Sleep(5 * time.Millisecond)
+	mu.Lock()
+	defer mu.Unlock()
+	sort.Slice(dialled, func(i, j int) bool { return dialled[i] < dialled[j] })
+	return c16list(dialled)
+}
+
 func TestVerifC16(t *testing.T) {
 	o := vopen(t)
 	defer o.close()
 	rng := &vrng{s: vseed()}
 	thorough := vthorough()
+
+	// 0. whole runs of autoDiscover over several configured networks: nested, identical network numbers with different
+	// prefix lengths, repeated, adjacent, /31 and /32 — every host of every configured network is dialled
+	oldSvc := driver.svc
+	driver.svc = c17newSvc([]models.Device{})
+	for _, nets := range [][][2]uint32{
+		{{0x7F000008, 31}, {0x7F000008, 30}},
+		{{0x7F000100, 28}, {0x7F000100, 30}, {0x7F000100, 32}},
+		{{0x7F000210, 29}, {0x7F000210, 29}},
+		{{0x7F000300, 30}, {0x7F000304, 30}, {0x7F000308, 31}},
+		{{0x7F00040D, 28}},
+		{{0x7F000500, 27}, {0x7F000510, 28}},
+	} {
+		req := "auto"
+		for _, n := range nets {
+			req += fmt.Sprintf(" %d/%d", n[0], n[1])
+		}
+		o.line(req, c16auto(context.Background(), nets, 30*time.Second))
+	}
+	{
+		ctx, cancel := context.WithCancel(context.Background())
+		cancel()
+		obs := c16auto(ctx, [][2]uint32{{0x7F000600, 29}, {0x7F000601, 32}}, 5*time.Second)
+		if obs != "blocked" {
+			obs = "returned"
+		}
+		o.line("auto-cancelled before-start", obs)
+		ctx2, cancel2 := context.WithTimeout(context.Background(), 20*time.Millisecond)
+		obs = c16auto(ctx2, [][2]uint32{{0x7F000700, 24}}, 10*time.Second)
+		cancel2()
+		if obs != "blocked" {
+			obs = "returned"
+		}
+		o.line("auto-cancelled after-20ms", obs)
+	}
+	driver.svc = oldSvc
 
 	// base addresses: corners, x.y.z.255, 255.255.255.x, octet crossings, unaligned, then random from the seed
 	bases := []uint32{
